@@ -115,7 +115,7 @@ def locator_item(entries, locator_type=VHDX_LOCATOR_TYPE, order=None):
 
 def build(states, slots, block_size=MB, sector=512, size=None, layer=1, seqs=(7, 6), regions=("meta", "bat"),
           meta_mb=2, bat_mb=3, base_mb=None, bitmaps=None, parent=None, disk_id=b"\x11" * 16, nslots=None, label="vhdx",
-          total_blocks=None, window_at=0, sb_slot_mb=None, name=None):
+          total_blocks=None, window_at=0, sb_slot_mb=None, name=None, leave_allocated=False):
     """states: per block of the *window* one of NOT_PRESENT/UNDEFINED/ZERO_ST/UNMAPPED/DATA('D')/PARTIAL.
     slots:   per block the physical slot (for DATA / PARTIAL blocks).
     window_at/total_blocks: the window sits at block `window_at` of a disk of `total_blocks` blocks (others NOT_PRESENT).
@@ -148,7 +148,7 @@ def build(states, slots, block_size=MB, sector=512, size=None, layer=1, seqs=(7,
     img.put(3 * KB64, rt)
     img.put(4 * KB64, rt)
     # metadata
-    items = [(FILE_PARAMETERS, struct.pack("<II", block_size, 2 if has_parent else 0), 4),
+    items = [(FILE_PARAMETERS, struct.pack("<II", block_size, (2 if has_parent else 0) | (1 if leave_allocated else 0)), 4),
              (VIRTUAL_DISK_SIZE, struct.pack("<Q", size), 6), (VIRTUAL_DISK_ID, disk_id, 6),
              (LOGICAL_SECTOR_SIZE, struct.pack("<I", sector), 6), (PHYSICAL_SECTOR_SIZE, struct.pack("<I", 4096), 6)]
     if has_parent:
